@@ -39,6 +39,7 @@ def run(ctx) -> None:
 
     ctx.reuse("C14.transfer-composition", c05.owner)
     ctx.reuse("C14.transfer-composition", c05.read_exact)
+    ctx.reuse("C14.transfer-composition", c05.mix_args)
     # volumes above the worklist's max_volume are split by partition_volume: the parts add up
     from . import c06
 
@@ -385,6 +386,11 @@ def totals(ctx) -> None:
             return "R" in names and vmax_like
         return False
 
+    if isinstance(raw, ast.Call) and call_fname(raw) in ("round", "around", "rint", "floor", "trunc", "int", "fix") and raw.args and isinstance(raw.args[0], ast.BinOp) \
+            and isinstance(raw.args[0].op, ast.Sub) and is_total(raw.args[0].left):
+        ctx.rep.refuted(rule, c, f"v_diluent is `{show(raw)[:60]}`: rounding can take the reported volume below what the instructions consume (sum(R * vmax) - v_stock with a fractional "
+                        "vmax) - executing the plan then needs more diluent than the plan says", where=w)
+        return
     if isinstance(raw, ast.BinOp) and isinstance(raw.op, ast.Sub) and is_total(raw.left) and (attr_of_name(raw.right, selfn, "v_stock") or key(fv.def_expr(raw.right, at)[0]) == key(fv.def_expr(stores["v_stock"].ast.value, stores["v_stock"].id)[0])):
         ctx.rep.holds(rule, c, "v_diluent = sum(R * vmax) - v_stock", where=w)
         return
